@@ -32,18 +32,72 @@ def load_own_findings(ctx):
     honour it directly as well so that the check behaves the same before and after the merge."""
     known = ctx.known()
     have = {(k.get("property"), k.get("key")) for k in known}
-    p = os.path.join(lib.VERIF, "findings.d", ctx.prop + ".json")
-    if os.path.exists(p):
-        with open(p) as f:
-            for k in json.load(f):
-                if (k.get("property"), k.get("key")) not in have:
-                    known.append(k)
+    if os.environ.get("VERIF_FINDINGS_SUFFIX"):
+        # trying out the fixed fragment: entries it declares fixed must not be suppressed by the (not yet swapped) merged file
+        fixed = {(k.get("property"), k.get("key")) for k in _fragment(ctx.prop) if k.get("status") == "fixed"}
+        known[:] = [k for k in known if (k.get("property"), k.get("key")) not in fixed]
+        have = {(k.get("property"), k.get("key")) for k in known}
+    for k in _fragment(ctx.prop):
+        if (k.get("property"), k.get("key")) not in have:
+            known.append(k)
+
+
+def _fragment(prop):
+    # VERIF_FINDINGS_SUFFIX=.after-fix: try the check against a worktree that already contains the prepared fixes
+    p = os.path.join(lib.VERIF, "findings.d", prop + ".json" + os.environ.get("VERIF_FINDINGS_SUFFIX", ""))
+    if not os.path.exists(p):
+        return []
+    with open(p) as f:
+        return json.load(f)
+
+
+def fix_flags():
+    """Which repairs the tree under test contains, read from the findings fragments (an entry is flipped to status
+    "fixed" when its fix is committed): the generator and the trace specification model the code as it is NOW.
+    A fixed entry suppresses nothing - if the defect were still there the trace would be rejected as a violation."""
+    def fixed(prop, prefix):
+        es = [e for e in _fragment(prop) if e.get("key", "").startswith(prefix)]
+        return bool(es) and all(e.get("status") == "fixed" for e in es)
+    return {"FixD5": fixed("C12", "NoWriteAfterClose:"),
+            "FixInit": fixed("C13", "NoStaleInit:") and fixed("C13", "NoLateInit:"),
+            "FixDetach": fixed("C13", "NoStaleDetach:"),
+            "FixUpdater": fixed("C13", "NoStaleUpdater:")}
+
+
+def _tla_bool(b):
+    return "TRUE" if b else "FALSE"
+
+
+def trace_cfg(prop, soft, flags):
+    return """CONSTANTS
+  NS = 2
+  MaxEvents = 3
+  MaxTerm = 99
+  MaxSrcTerm = 99
+  MaxHB = 99
+  UseD = TRUE
+  StartModes <- StartAll
+  FixD5 = %s
+  FixInit = %s
+  FixDetach = %s
+  FixUpdater = %s
+  CfgOK <- CfgAll
+  Soft = %s
+  Prop = "%s"
+SPECIFICATION TraceSpec
+CONSTRAINT HighWater
+%sVIEW TraceView
+%sPOSTCONDITION TraceAccepted
+CHECK_DEADLOCK FALSE
+""" % (_tla_bool(flags["FixD5"]), _tla_bool(flags["FixInit"]), _tla_bool(flags["FixDetach"]), _tla_bool(flags["FixUpdater"]),
+       _tla_bool(soft), prop, "CONSTRAINT Judge\n" if soft else "", "" if soft else "INVARIANTS " + " ".join(INVS[prop]) + "\n")
 
 
 def gen_cfg(name, **kw):
     """Write a Gen_Subs cfg into the spec copy used by ctx.tlc (done through `extra` spec dir)."""
     d = dict(NS=2, MaxEvents=1, MaxTerm=1, MaxSrcTerm=1, MaxHB=0, UseD="FALSE", StartModes="StartOK", CfgOK="CfgRace", MaxProbes=0, SeqSetup="TRUE")
     d.update(kw)
+    d.update({k: _tla_bool(v) for k, v in fix_flags().items()})
     return """CONSTANTS
   NS = %(NS)s
   MaxEvents = %(MaxEvents)s
@@ -52,8 +106,10 @@ def gen_cfg(name, **kw):
   MaxHB = %(MaxHB)s
   UseD = %(UseD)s
   StartModes <- %(StartModes)s
-  FixD5 = FALSE
-  FixD6 = FALSE
+  FixD5 = %(FixD5)s
+  FixInit = %(FixInit)s
+  FixDetach = %(FixDetach)s
+  FixUpdater = %(FixUpdater)s
   CfgOK <- %(CfgOK)s
   MaxProbes = %(MaxProbes)s
   SeqSetup = %(SeqSetup)s
@@ -77,7 +133,7 @@ def spec_dir(ctx, cfgs):
 
 def to_schedule(tag, idx, b, kv):
     n = len(b["key"])
-    return {"id": "%s-%06d" % (tag, idx),
+    return {"id": "%s-%06d" % (tag, idx), "nopark": [],
             "subs": [{"key": b["key"][i], "filt": b["filt"][i], "conn": b["conn"][i]} for i in range(n)],
             "kv": kv, "start": list(b["start"]), "steps": b["steps"],
             "predicted": {"wdata": b.get("wdata"), "wafter": b.get("wafter"), "stale": b.get("stale"), "late": b.get("late")}}
@@ -196,7 +252,9 @@ def validate(ctx, prop, tag, events_path, scheds, results, binary=None, depth=0)
         return 0, 0
     by_id = {s["id"]: s for s in scheds}
     res_by_id = {r["id"]: r for r in results}
-    soft = ctx.tlc(["conc"], "Trace_Subs", "Trace_Subs_%s_soft.cfg" % prop, workers=1, env={"TRACE": events_path}, timeout=2400,
+    flags = fix_flags()
+    d = spec_dir(ctx, {"Trace_Subs_%s_soft.cfg" % prop: trace_cfg(prop, True, flags), "Trace_Subs_%s.cfg" % prop: trace_cfg(prop, False, flags)})
+    soft = ctx.tlc(["conc", d], "Trace_Subs", "Trace_Subs_%s_soft.cfg" % prop, workers=1, env={"TRACE": events_path}, timeout=2400,
                    deadlock=False, count=False, tag="trace-validation-soft-" + tag)
     if not soft.ok:
         print(soft.out[-3000:])
@@ -255,7 +313,7 @@ def validate(ctx, prop, tag, events_path, scheds, results, binary=None, depth=0)
     if ngood:
         gp = events_path + ".accepted"
         lib.write_ndjson(gp, good_rows)
-        strict = ctx.tlc(["conc"], "Trace_Subs", "Trace_Subs_%s.cfg" % prop, workers=1, env={"TRACE": gp}, timeout=2400,
+        strict = ctx.tlc(["conc", d], "Trace_Subs", "Trace_Subs_%s.cfg" % prop, workers=1, env={"TRACE": gp}, timeout=2400,
                          deadlock=False, count=False, tag="trace-validation-" + tag)
         if not strict.ok:
             print(strict.out[-3000:])
@@ -305,6 +363,8 @@ def replay_one(ctx, prop, binary):
     s = case.get("schedule")
     if not s:
         raise lib.Inconclusive("replay file has no schedule")
+    s = dict(s)
+    s["nopark"] = []
     tot = run_batches(ctx, prop, binary, [("replay", [s])])
     ctx.coverage.update({"traces_validated_against_impl": tot["accepted"], "evaluations": tot["replayed"], "distinct_nontrivial": len(tot["distinct"]),
                          "rule": "replay of one recorded schedule", "samples": tot["samples"], "exhaustive": False})
